@@ -369,7 +369,7 @@ func authorizePanel(tok *biscuit.Biscuit, g *scenGen, contents [][]AuthOp) strin
 }
 
 func runC09(c *Ctx) {
-	c.Rule = "sealed / unsealed twins: a token (1-5 blocks) and the token obtained by Seal are compared on signature verification, a panel of 4 generated authorizer contents, revocation ids, refusal of Append and Seal, before and after Serialize/Unmarshal; the sealed envelope goes through the CHAIN mutation stream restricted to the seal (final signature, last block, last announced key, dropped last block, seal turned back into a secret) and must be rejected exactly when the model rejects. Non-trivial = the panel contains at least one non-failing verdict or the case is a mutated sealed envelope; distinct = distinct token bytes / mutated bytes."
+	c.Rule = "sealed / unsealed twins: a token (1-5 blocks) and the token obtained by Seal are compared on signature verification, a panel of 4 generated authorizer contents, revocation ids, refusal of Append and Seal, before and after Serialize/Unmarshal; the sealed envelope goes through the CHAIN mutation stream restricted to the seal (final signature, last block, last announced key, dropped last block, seal turned back into a secret, last block replaced and resealed with a foreign key) and must be rejected exactly when the model rejects. Non-trivial = the panel contains at least one non-failing verdict or the case is a mutated sealed envelope; distinct = distinct token bytes / mutated bytes."
 	r := NewRng(c.Seed)
 	n := 600
 	if c.Thorough {
@@ -445,7 +445,18 @@ func runC09(c *Ctx) {
 			sbs := allSigned(e)
 			last := sbs[len(sbs)-1]
 			name := ""
-			switch r.Intn(7) {
+			switch r.Intn(8) {
+			case 7:
+				// coordinated replacement by a holder without the chain's keys: a new last
+				// block announcing the attacker's key, an arbitrary block signature, and a
+				// seal recomputed with the attacker's key over exactly what the verifier hashes
+				apub, ap, _ := ed25519.GenerateKey(rd)
+				last.Block = mustMarshal(&pb.Block{Version: proto.Uint32(3)})
+				last.NextKey.Key = apub
+				last.Signature = r.Bytes(64)
+				payload := append(blockPayloadBytes(last.Block, 0, last.NextKey.Key), last.Signature...)
+				e.Proof = &pb.Proof{Content: &pb.Proof_FinalSignature{FinalSignature: ed25519.Sign(ap, payload)}}
+				name = "replace-last-block-and-reseal"
 			case 0:
 				e.Proof = &pb.Proof{Content: &pb.Proof_FinalSignature{FinalSignature: flipBit(e.Proof.GetFinalSignature(), r)}}
 				name = "flip-final-signature"
